@@ -635,11 +635,24 @@ class Interp:
         if module.name in done:
             return
         done.add(module.name)
-        for cname, ci in getattr(module, "classes", {}).items():
-            for dec in ci.node.decorator_list:
-                if isinstance(dec, ast.Name) and dec.id in getattr(module, "functions", {}):
-                    fr = Frame(module, None)
-                    self.inline_call(module.functions[dec.id], [PClass(ci)], {}, fr, spec=False)
+        # module-level statements that fill containers when the module is imported, in source order:
+        # `for ...:` loops and `NAME[key] = value` stores at top level, and class decorators of the module's own
+        # functions.  A statement outside the interpreted subset is skipped (the container then stays as its literal).
+        fr = Frame(module, None)
+        for st in getattr(module, "tree", ast.Module(body=[], type_ignores=[])).body:
+            try:
+                if isinstance(st, ast.For):
+                    self.exec_block([st], fr)
+                elif isinstance(st, ast.Assign) and len(st.targets) == 1 and isinstance(st.targets[0], ast.Subscript) \
+                        and isinstance(st.targets[0].value, ast.Name) and st.targets[0].value.id in module.assigns:
+                    self.exec_block([st], fr)
+                elif isinstance(st, ast.ClassDef):
+                    ci = module.classes.get(st.name)
+                    for dec in st.decorator_list:
+                        if ci is not None and isinstance(dec, ast.Name) and dec.id in module.functions:
+                            self.inline_call(module.functions[dec.id], [PClass(ci)], {}, Frame(module, None), spec=False)
+            except (Unsupported, PyRaise):
+                continue
 
     def load_global(self, module, name):
         key = (module.name, name)
@@ -680,6 +693,9 @@ class Interp:
             fr = Frame(mod, None)
             v = self.eval(expr, fr)
             self.ctx.globals[gkey] = v
+            if isinstance(expr, (ast.Dict, ast.List)):
+                # a module-level container may be filled further when its module is imported
+                self.run_class_decorators(mod)
             return v
         if isinstance(r, tuple) and r[0] == "ext":
             dotted = r[1]
